@@ -85,7 +85,7 @@ func (s *Shard) Begin(c *Case) {
 }
 
 // HangSeconds is far above any legitimate case duration (micro- to milliseconds).
-var HangSeconds = 30
+var HangSeconds = 60
 
 // Take returns true when the next unit of work belongs to this shard.
 func (s *Shard) Take() bool {
@@ -185,7 +185,9 @@ func RunShard(prop, tier string, idx, n int, dir string) {
 				return
 			case <-time.After(500 * time.Millisecond):
 			}
-			cur := atomic.LoadInt64(&s.progress)
+			// progress = cases begun + evaluations counted + work units taken (the last two are plain counters of the
+			// enumerating goroutine, read here without synchronisation: only "did it move" matters)
+			cur := atomic.LoadInt64(&s.progress) + s.Evals + s.caseNo
 			if cur != last {
 				last, since = cur, time.Now()
 				continue
